@@ -31,9 +31,9 @@ SwitchCases == {[op |-> "backend_switch", operands |-> s, tree |-> Leaf(1), ref 
                      : s \in (IF Quick THEN RandomSubset(40, Seqs(3)) ELSE Seqs(3))}
 ReuseCases == {[op |-> o, operands |-> s, tree |-> Leaf(1),
                 ref |-> IF o = "reuse_operand" THEN Pool[s[1]]
-                        ELSE IF o \in {"resolve_twice", "resolve_defs_twice"} THEN Resolve([i \in 1..2 |-> Pool[s[i]]])
+                        ELSE IF o \in {"resolve_twice", "resolve_defs_twice", "resolve_decorated"} THEN Resolve([i \in 1..2 |-> Pool[s[i]]])
                         ELSE SumSeq([i \in 1..2 |-> Pool[s[i]]])]
-                     : s \in Seqs(2), o \in {"reuse_sum_again", "reuse_first_sum", "reuse_operand", "resolve_twice", "resolve_defs_twice"}}
+                     : s \in Seqs(2), o \in {"reuse_sum_again", "reuse_first_sum", "reuse_operand", "resolve_twice", "resolve_defs_twice", "resolve_decorated"}}
 ASSUME LET S == SetToSeq(SumCases \cup ResolveCases \cup BackendCases \cup SwitchCases \cup ReuseCases)
        IN  ndJsonSerialize(IOEnv.VERIF_OUT, [i \in 1..Len(S) |-> [id |-> i, pool |-> Pool] @@ S[i]])
 Init == x = 0
